@@ -448,21 +448,30 @@ theorem step_condEnter (st : AState) (h : Inv reg n H0 st) :
 theorem step_condExit (st : AState) (h : Inv reg n H0 st) :
     Inv reg n H0 (step reg st .condExit) ∧ Restores st (step reg st .condExit) := ⟨h, Restores.refl st⟩
 
-theorem step_saveHas (name : Str) (st : AState) (h : Inv reg n H0 st) :
-    Inv reg n H0 (step reg st (.saveHas name)) ∧ Restores st (step reg st (.saveHas name)) :=
-  ⟨h.of_eq rfl rfl rfl, ⟨rfl, rfl, Nat.le_refl _⟩⟩
-
-theorem step_restoreHas (name : Str) (st : AState) (h : Inv reg n H0 st) :
-    Inv reg n H0 (step reg st (.restoreHas name)) ∧ Restores st (step reg st (.restoreHas name)) := by
+theorem step_handlerEnd (name : Str) (st : AState) (h : Inv reg n H0 st) :
+    Inv reg n H0 (step reg st (.handlerEnd name)) ∧ Restores st (step reg st (.handlerEnd name)) := by
   simp only [step]
-  split
-  · exact ⟨h, Restores.refl st⟩
-  · rename_i b r hs
-    have h1 : Inv reg n H0 { st with savedHas := r } := h.of_eq rfl rfl rfl
+  have h1 : Inv reg n H0 (if ((st.heap.get st.stack.top).get name).isSome = true then
+      { st with heap := st.heap.update st.stack.top (·.del name), log := st.log ++ [.nsDel st.stack.top name] } else st) ∧
+      (if ((st.heap.get st.stack.top).get name).isSome = true then
+      ({ st with heap := st.heap.update st.stack.top (·.del name), log := st.log ++ [.nsDel st.stack.top name] } : AState) else st).stack = st.stack ∧
+      (if ((st.heap.get st.stack.top).get name).isSome = true then
+      ({ st with heap := st.heap.update st.stack.top (·.del name), log := st.log ++ [.nsDel st.stack.top name] } : AState) else st).saved = st.saved ∧
+      st.heap.length ≤ (if ((st.heap.get st.stack.top).get name).isSome = true then
+      ({ st with heap := st.heap.update st.stack.top (·.del name), log := st.log ++ [.nsDel st.stack.top name] } : AState) else st).heap.length := by
     split
-    · obtain ⟨a1, a2⟩ := inv_storeTop h1 name
-      exact ⟨a1, ⟨a2.stack, a2.saved, a2.heap⟩⟩
-    · exact ⟨h1, ⟨rfl, rfl, Nat.le_refl _⟩⟩
+    · exact ⟨inv_update_top h st.stack.top (.inr h.top_ge) (·.del name)
+        (fun sc hsc kv hkv => hsc kv (List.mem_filter.mp hkv).1) (.nsDel st.stack.top name) h.top_ge, rfl, rfl,
+        by simp [Heap.length_update]⟩
+    · exact ⟨h, rfl, rfl, Nat.le_refl _⟩
+  obtain ⟨i1, i2, i3, i4⟩ := h1
+  refine ⟨?_, ⟨i2, i3, by simp only [Heap.length_update]; exact i4⟩⟩
+  exact inv_update_top_es i1 st.stack.top (.inr h.top_ge) (·.delBelow name)
+    (fun sc hsc kv hkv => hsc kv (List.mem_filter.mp hkv).1) _
+    (fun e he => by
+      simp only [List.mem_map] at he
+      obtain ⟨k, _, rfl⟩ := he
+      exact h.top_ge)
 
 theorem HT_condEnter (b : Bool) : HT reg n H0 (if b = true then [Op.condEnter] else []) := by
   split
@@ -1032,21 +1041,15 @@ mutual
       refine (((cOptExpr_HT fx type).append ?_).append (cStmts_HT fx l body)).append ?_
       · cases name with
         | none => exact HT.nil
-        | some nm =>
-          simp only []
-          refine HT.append ?_ (HT.single (step_store nm))
-          split
-          · exact HT.single (step_saveHas nm)
-          · exact HT.nil
+        | some nm => exact HT.single (step_store nm)
       · cases name with
         | none => exact HT.nil
         | some nm =>
           simp only []
           split
-          · refine HT.cons (step_delName nm false) ?_
-            split
-            · exact HT.single (step_restoreHas nm)
-            · exact HT.nil
+          · split
+            · exact HT.single (step_handlerEnd nm)
+            · exact HT.single (step_delName nm false)
           · exact HT.nil
 end
 
